@@ -16,6 +16,7 @@ const sqlc = "lib/store/sqlc"
 // weakened on its way to the column-count check; C11-vm3: a collaborating wrapper of the transaction
 // body stops the body's panic and hands a nil error to the runner).
 func c11R10(r *core.Run) {
+	defer c11R11(r)
 	p := r.P
 	r.Explanation += " That the mode a row-mapping function of lib/store/sqlx was called in reaches the strict column-count check: the flag handed on is the function's own flag, true, or weaker only where the own flag is false (a check confined to the first pass of a row loop is accepted). That no function of lib/store/sqlx or lib/store/sqlc that runs a caller-supplied transaction body stops a panic of it without reporting it (re-panic, or a provably non-nil error stored into its named result)."
 	r.NotDecided += " Strict flag: a flag computed from anything but the caller's mode, constants and a first-iteration marker is reported, also where it happens to be equivalent. Absorbed panics: only recover() calls inside the functions that call the body value, their closures and the named functions they defer (a *error handed to such a helper is taken to be the named result); non-nil is proved for fmt.Errorf/errors.New, conversions of concrete values, package-level error variables, a type assertion to error under its ok, and in-package helpers all of whose returns are such."
